@@ -29,6 +29,7 @@ type flowCase struct {
 	ExtraArg []string
 	Tweak    func(*pgen.Spec)
 	SlowOne  int // >0: one stage call (chosen by seed) finishes this many ms late
+	PyPct     int         // percentage of stages written in Python (run through the real Python adapter)
 	Crash     string      // VERIF_CRASH spec for a first run; mrp is then restarted on the same pipestance
 	Rules     []pgen.Rule // probe behaviour rules (faults, delays) for this case
 	AutoRetry int         // --autoretry value
@@ -57,6 +58,15 @@ func runFlowCase(c *vf.Ctx, fc *flowCase) *flowResult {
 	res := &flowResult{fc: fc}
 	cfg := fc.Cfg
 	cfg.SrcFor = vrun.ProbeSrc(c.BuildDir)
+	if v := os.Getenv("VERIF_PYPCT"); v != "" {
+		fmt.Sscan(v, &fc.PyPct) // triage override
+	}
+	if fc.PyPct > 0 {
+		pct, seed := fc.PyPct, fc.Seed
+		cfg.SrcFor = vrun.PyProbeSrc(c.BuildDir, func(stage string) bool {
+			return pgen.NewHashRng("py", fmt.Sprint(seed), stage).Intn(100) < pct
+		})
+	}
 	var p *pgen.Program
 	if fc.Template > 0 {
 		p = pgen.Template(fc.Template-1, fc.Seed, cfg)
@@ -500,7 +510,8 @@ func init() {
 				cfg.PProject = 60
 				seed := c.Seed*1000003 + int64(i)
 				cases = append(cases, &flowCase{Index: i, Seed: seed, Cfg: cfg, Vdr: "disable",
-					DelayMs: []int{0, 30, 120}[i%3], Race: !c.Quick() && i%5 == 0, Template: tmplFor(i)})
+					DelayMs: []int{0, 30, 120}[i%3], Race: !c.Quick() && i%5 == 0, Template: tmplFor(i),
+					PyPct: map[bool]int{true: 60}[i%6 == 5]}) // every sixth program: most stages in Python
 			}
 			return cases
 		},
